@@ -151,6 +151,25 @@ def run(ck, facts, tier):
                     ck.ok(R, inst, "exception: " + OUT_OF_FRAGMENT[v])
                     continue
                 visits = has_call(bc, "visit_with")
+                # every datum fetched in the arm is visited *whole*: some visit_with has, as its receiver, the getter call itself or
+                # the variable bound to it (a visit of a projection / derived value such as `.bounds_on_self()` does not count)
+                lets = {st["pat"].get("n"): st["init"] for st in walk(bc) if st.get("k") == "let" and st.get("init") is not None and st["pat"].get("k") == "bind"}
+                whole = set()
+                for c in calls(bc, "visit_with"):
+                    r = peel(c["args"][0]) if c.get("args") else {}
+                    while isinstance(r, dict) and r.get("k") == "call" and callee_matches(r, ("Deref::deref", "Arc::<T>::as_ref", "AsRef::as_ref", "Borrow::borrow")) and r.get("args"):
+                        r = peel(r["args"][0])
+                    if r.get("k") == "var" and r.get("n") in lets:
+                        r = peel(lets[r["n"]])
+                    if r.get("k") == "call" and r.get("trait") == "chalk_solve::RustIrDatabase":
+                        whole.add(r["fn"].split("::")[-1])
+                fetched = {c["fn"].split("::")[-1] for c in calls(bc) if c.get("trait") == "chalk_solve::RustIrDatabase"} - {"interner"}
+                if fetched - whole:
+                    ck.violation(R, inst + ":whole-datum", cu.where(mc[0]["arms"][ac[0][0]]["ln"]),
+                                 "the datum(s) fetched through %s are not visited as a whole (only parts / derived values are): ids that occur "
+                                 "only in the unvisited parts get no stub, and the printed program names an item it does not define"
+                                 % sorted(fetched - whole))
+                    continue
                 if getters_w and getters_w <= getters_c and visits:
                     ck.ok(R, inst, "writer getters %s all visited by the collector" % sorted(getters_w))
                 else:
